@@ -13,8 +13,10 @@ Check(t) ==
     IF t.ev = "guid" THEN Report("C11_GuidLE", C11_GuidLE(t.kid, t.le), 0)
     ELSE IF t.ev = "key" THEN Report("C11_ContentKey", C11_ContentKey(t.kid, t.seed, t.key), 0)
     ELSE IF t.ev = "pro" THEN
-        Report("C11_ProParsesBack", C11_ProParsesBack(t.kids, t.la_eq, t.pro_kids, t.pro_checksums, t.keys),
-               [la |-> t.la_eq, n |-> Len(t.pro_kids)])
+        /\ Report("C11_ProParsesBack", C11_ProParsesBack(t.kids, t.la_eq, t.pro_kids, t.pro_checksums, t.keys),
+                  [la |-> t.la_eq, n |-> Len(t.pro_kids)])
+        /\ Report("C11_LicenceUrlNamesKeys", C11_LicenceUrlNamesKeys(t.has_cfgs, t.all_kids, t.all_keys, t.cfg_kids, t.cfg_keys),
+                  [n |-> Len(t.cfg_kids), want |-> Len(t.all_kids)])
     ELSE IF t.ev = "clearkey" THEN
         Report("C11_ClearKeyExact", t.status = 200 /\ C11_ClearKeyExact(ToSet(t.store), t.requested, t.response), Len(t.response))
     ELSE IF t.ev = "cp" THEN
